@@ -267,6 +267,9 @@ def batch_files(max_n, lo, hi, seed):
             for fi in range(n):
                 if rnd.random() < 0.4:
                     attrs.append([fi, 'a%d' % fi, ['range', rnd.randint(0, 5), rnd.randint(5, 30)], str(rnd.randint(0, 9)), '0'])
+                if rnd.random() < 0.25:      # bounds of different digit counts (text order differs from numeric order), equal bounds, zero
+                    lo_, hi_ = rnd.choice([(5, 10), (8, 48), (64, 108), (9, 10), (99, 100), (0, 0), (7, 7), (2, 1000), (0, 9), (10, 10)])
+                    attrs.append([fi, 'w%d' % fi, ['range', lo_, hi_], str(lo_), str(hi_)])
                 if rnd.random() < 0.3:
                     lo0 = rnd.randint(0, 3)
                     rngs = [[lo0 + 10 * j, lo0 + 10 * j + rnd.randint(0, 8)] for j in range(rnd.randint(2, 4))]
